@@ -50,7 +50,7 @@ CHECKS = {
  },
  "C16": {
   "technique": "generated-input differential testing across separate interpreter processes (PYTHONHASHSEED x formatter configuration x set construction history); batch generated with Hypothesis",
-  "text": "A Hypothesis-generated batch of set/frozenset/dict-rich values (incl. list / set / frozenset subclasses) and of strings with blanks / quotes at their ends is created (or fixed in a snapshot holding another value of the same shape) by one interpreter process per (hash seed, formatter) cell, each value in three construction histories; texts must be byte-identical across seeds and histories and have the same syntax tree and value across black / no black / format-command. Exploration.",
+  "text": "A Hypothesis-generated batch of set/frozenset/dict-rich values (incl. list / set / frozenset subclasses) and of strings with blanks / quotes at their ends is created (or fixed in a snapshot holding another value of the same shape) by one interpreter process per (hash seed, formatter) cell, each value in three construction histories; every sixth case is a dict with several str keys that a [key] snapshot holding one key gains in one session; texts must be byte-identical across seeds and histories and have the same syntax tree and value across black / no black / format-command. Exploration.",
   "note": "hash seeds 0-5 and two random ones, four formatter configurations, black 26.5.1 only; dict insertion order is treated as part of the value",
  },
  "C14": {
@@ -60,7 +60,7 @@ CHECKS = {
  },
  "C17": {
   "technique": "Hypothesis property-based testing of mutation schedules against an aliasing-free model (the harness replays the schedule on its own objects and deep-copies at comparison time)",
-  "text": "Generated schedules interleave comparisons on 1-3 sites with mutations (append, clear, item/attribute assignment, nested) of 1-3 shared mutable variables; the values in the rewritten file after create, and after a second fix+trim session on a changed schedule, must equal the aggregation of the harness-recorded copies; values whose deep copy differs (identity eq, lossy __deepcopy__, also nested; values that deepcopy returns unchanged but that are not equal to themselves such as nan) must raise UsageError, also against a snapshot that already holds a value; a value for which deepcopy raises must never be recorded in its later, mutated state; and leave the site unwritten. Exploration.",
+  "text": "Generated schedules interleave comparisons on 1-3 sites with mutations (append, clear, item/attribute assignment, nested) of 1-3 shared mutable variables (lists, dicts, sets, dataclass / attrs / pydantic instances, tuples and namedtuples holding lists); the values in the rewritten file after create, and after a second fix+trim session on a changed schedule, must equal the aggregation of the harness-recorded copies; values whose deep copy differs (identity eq, lossy __deepcopy__, also nested; values that deepcopy returns unchanged but that are not equal to themselves such as nan) must raise UsageError, also against a snapshot that already holds a value; a value for which deepcopy raises must never be recorded in its later, mutated state; and leave the site unwritten. Exploration.",
   "note": "== sites only see equal values by construction; the category model of C05 aggregates the recorded copies",
  },
  "C06": {
@@ -90,7 +90,7 @@ CHECKS = {
  },
  "C02": {
   "technique": "Hypothesis property-based testing: edit-script generated (previous text, new value) pairs, noisy renderer, oracle = re-execution of the rewritten module with inline-snapshot inactive",
-  "text": "Generated programs with 1-4 sites whose previous argument is a noisy rendering of an edit-script mutation of the observed value (or missing); one in-process run with create+fix; the rewritten module must pass when re-executed with inline-snapshot inactive and every site argument must satisfy the observed comparisons; a guarded comparison that raises may precede everything; a second arm repairs an outer snapshot whose elements are inner snapshots in every state (empty, wrong, noisy, right). Exploration.",
+  "text": "Generated programs with 1-4 sites whose previous argument is a noisy rendering of an edit-script mutation of the observed value (or missing); one in-process run with create+fix; the rewritten module must pass when re-executed with inline-snapshot inactive and every site argument must satisfy the observed comparisons; a guarded comparison that raises may precede everything; a second arm repairs an outer snapshot whose elements are inner snapshots in every state (empty, wrong, noisy, right); a third runs create,fix in a real pytest session over a file whose new code needs the external / HasRepr imports (with and without external(...) already in the file) and re-runs the project with --inline-snapshot=disable and without flags. Exploration.",
   "note": "no user-controlled parts in the previous text; bounded value size; every noisy rendering is validated by the harness (eval == intended previous value) before use",
  },
  "C01": {
